@@ -1564,97 +1564,7 @@ theorem import_restores (W : World) (t : Table) (d : List (Str × Row)) :
     · simp only [importJson, hds]; exact hT'
     · simpa [List.append_assoc] using hag
 
-/-! ## the export order -/
-
-theorem orderNode_unfold (M : Str) (hM : M ≠ []) (k : Str) (cs : List Attr) (o : List Str) :
-    orderNode (some M) (.mk k cs) o =
-      if M = modOf k ∧ k ∉ orderList (some M) cs o then orderList (some M) cs o ++ [k] else orderList (some M) cs o := by
-  have hf : falsy (some M) = false := by
-    cases M with
-    | nil => exact absurd rfl hM
-    | cons _ _ => rfl
-  simp only [orderNode, hf, Bool.false_or]
-  by_cases h1 : M = modOf k
-  · by_cases h2 : k ∈ orderList (some M) cs o
-    · simp [h1]
-    · simp [h1]
-  · have : (some M == some (modOf k)) = false := by simp [h1]
-    simp [this, h1]
-
-mutual
-theorem orderNode_mem (M : Str) (hM : M ≠ []) (a : Attr) (o : List Str) :
-    ∀ x, x ∈ orderNode (some M) a o ↔ x ∈ o ∨ (x ∈ keysN a ∧ modOf x = M) := by
-  match a with
-  | .mk k cs =>
-    intro x
-    rw [orderNode_unfold M hM]
-    have ih := orderList_mem M hM cs o
-    simp only [keysN, List.mem_cons]
-    split
-    · rename_i h
-      simp only [List.mem_append, ih, List.mem_singleton]
-      constructor
-      · rintro ((h1 | h1) | h1)
-        · exact Or.inl h1
-        · exact Or.inr ⟨Or.inr h1.1, h1.2⟩
-        · exact Or.inr ⟨Or.inl h1, by rw [h1]; exact h.1.symm⟩
-      · rintro (h1 | ⟨h1 | h1, h2⟩)
-        · exact Or.inl (Or.inl h1)
-        · exact Or.inr h1
-        · exact Or.inl (Or.inr ⟨h1, h2⟩)
-    · rename_i h
-      rw [ih]
-      constructor
-      · rintro (h1 | h1)
-        · exact Or.inl h1
-        · exact Or.inr ⟨Or.inr h1.1, h1.2⟩
-      · rintro (h1 | ⟨h1 | h1, h2⟩)
-        · exact Or.inl h1
-        · subst h1
-          have : x ∈ orderList (some M) cs o := Classical.not_not.mp (fun hn => h ⟨h2.symm, hn⟩)
-          exact (ih x).mp this
-        · exact Or.inr ⟨h1, h2⟩
-theorem orderList_mem (M : Str) (hM : M ≠ []) (cs : List Attr) (o : List Str) :
-    ∀ x, x ∈ orderList (some M) cs o ↔ x ∈ o ∨ (x ∈ keysL cs ∧ modOf x = M) := by
-  match cs with
-  | [] => intro x; simp [orderList, keysL]
-  | a :: rest =>
-    intro x
-    simp only [orderList, keysL, List.mem_append]
-    rw [orderList_mem M hM rest _ x, orderNode_mem M hM a o x]
-    constructor
-    · rintro ((h | h) | h)
-      · exact Or.inl h
-      · exact Or.inr ⟨Or.inl h.1, h.2⟩
-      · exact Or.inr ⟨Or.inr h.1, h.2⟩
-    · rintro (h | ⟨h | h, h2⟩)
-      · exact Or.inl (Or.inl h)
-      · exact Or.inl (Or.inr ⟨h, h2⟩)
-      · exact Or.inr ⟨h, h2⟩
-end
-
-mutual
-theorem orderNode_nodup (M : Str) (hM : M ≠ []) (a : Attr) (o : List Str) (h : o.Nodup) : (orderNode (some M) a o).Nodup := by
-  match a with
-  | .mk k cs =>
-    rw [orderNode_unfold M hM]
-    have ih := orderList_nodup M hM cs o h
-    split
-    · rename_i hc
-      rw [List.nodup_append]
-      refine ⟨ih, by simp, ?_⟩
-      intro x hx y hy
-      simp only [List.mem_singleton] at hy
-      subst hy
-      intro he; subst he; exact hc.2 hx
-    · exact ih
-theorem orderList_nodup (M : Str) (hM : M ≠ []) (cs : List Attr) (o : List Str) (h : o.Nodup) : (orderList (some M) cs o).Nodup := by
-  match cs with
-  | [] => exact h
-  | a :: rest =>
-    simp only [orderList]
-    exact orderList_nodup M hM rest _ (orderNode_nodup M hM a o h)
-end
+/-! ## generic facts about availability lists, `to_json` rows and dict lookups -/
 
 /-- every key of the list is available (in `avail` or earlier in the list) when it is reached -/
 def ValidFrom (refs : Str → List Str) : List Str → List Str → Prop
@@ -1671,169 +1581,6 @@ theorem validFrom_snoc (refs : Str → List Str) (xs : List Str) (k : Str) :
     constructor
     · rintro ⟨h1, h2, h3⟩; exact ⟨⟨h1, h2⟩, h3⟩
     · rintro ⟨⟨h1, h2⟩, h3⟩; exact ⟨h1, h2, h3⟩
-
-mutual
-/-- a class key may be hoisted in front of the symbol that mentions it when its own references are available by then:
-    in `base`, among the keys `E` exported before, or among the in-module keys beneath the mention -/
-def HoistN (refs : Str → List Str) (base E : List Str) (M : Str) : Attr → Prop
-  | .mk c ch => (modOf c = M → c ∉ E → ∀ r ∈ refs c, r ∈ base ∨ r ∈ E ∨ (modOf r = M ∧ r ∈ keysL ch)) ∧ HoistL refs base E M ch
-def HoistL (refs : Str → List Str) (base E : List Str) (M : Str) : List Attr → Prop
-  | [] => True
-  | a :: rest => HoistN refs base E M a ∧ HoistL refs base E M rest
-end
-
-mutual
-theorem orderNode_valid (refs : Str → List Str) (base E : List Str) (M : Str) (hM : M ≠ []) (a : Attr) (o : List Str)
-    (hv : ValidFrom refs base o) (hE : ∀ e ∈ E, e ∈ o) (hh : HoistN refs base E M a) :
-    ValidFrom refs base (orderNode (some M) a o) := by
-  match a with
-  | .mk k cs =>
-    simp only [HoistN] at hh
-    rw [orderNode_unfold M hM]
-    have ih := orderList_valid refs base E M hM cs o hv hE hh.2
-    split
-    · rename_i hc
-      rw [validFrom_snoc]
-      refine ⟨ih, ?_⟩
-      intro r hr
-      have hkE : k ∉ E := fun hk => hc.2 ((orderList_mem M hM cs o k).mpr (Or.inl (hE k hk)))
-      rcases hh.1 hc.1.symm hkE r hr with h | h | h
-      · exact List.mem_append.mpr (Or.inl h)
-      · exact List.mem_append.mpr (Or.inr ((orderList_mem M hM cs o r).mpr (Or.inl (hE r h))))
-      · exact List.mem_append.mpr (Or.inr ((orderList_mem M hM cs o r).mpr (Or.inr ⟨h.2, h.1⟩)))
-    · exact ih
-theorem orderList_valid (refs : Str → List Str) (base E : List Str) (M : Str) (hM : M ≠ []) (cs : List Attr) (o : List Str)
-    (hv : ValidFrom refs base o) (hE : ∀ e ∈ E, e ∈ o) (hh : HoistL refs base E M cs) :
-    ValidFrom refs base (orderList (some M) cs o) := by
-  match cs with
-  | [] => exact hv
-  | a :: rest =>
-    simp only [HoistL] at hh
-    simp only [orderList]
-    exact orderList_valid refs base E M hM rest _ (orderNode_valid refs base E M hM a o hv hE hh.1)
-      (fun e he => (orderNode_mem M hM a o e).mpr (Or.inl (hE e he))) hh.2
-end
-
-/-! ## `_order_keys` and `to_json` -/
-
-theorem orderKeysLoop_cons (W : World) (M : Str) (k : Str) (s : Sym) (rest : List (Str × Sym)) (o : List Str) :
-    orderKeysLoop W (some M) ((k, s) :: rest) o =
-      if M = modOf k then
-        orderKeysLoop W (some M) rest
-          (if k ∈ orderNode (some M) (s.asAttr W) o then orderNode (some M) (s.asAttr W) o else orderNode (some M) (s.asAttr W) o ++ [k])
-      else orderKeysLoop W (some M) rest o := by
-  simp only [orderKeysLoop]
-  by_cases h : M = modOf k
-  · subst h
-    simp
-  · have : (some M == some (modOf k)) = false := by simp [h]
-    simp [this, h]
-
-theorem orderKeysLoop_spec (W : World) (M : Str) (hM : M ≠ []) (items : List (Str × Sym)) :
-    ∀ o : List Str, o.Nodup → (∀ x ∈ o, modOf x = M) →
-      (orderKeysLoop W (some M) items o).Nodup ∧ (∀ x ∈ orderKeysLoop W (some M) items o, modOf x = M) ∧
-      (∀ x ∈ o, x ∈ orderKeysLoop W (some M) items o) ∧
-      (∀ ks ∈ items, modOf ks.1 = M → ks.1 ∈ orderKeysLoop W (some M) items o) := by
-  induction items with
-  | nil => intro o h1 h2; exact ⟨h1, h2, fun x hx => hx, by simp⟩
-  | cons ks rest ih =>
-    obtain ⟨k, s⟩ := ks
-    intro o h1 h2
-    rw [orderKeysLoop_cons]
-    split
-    · rename_i hk
-      have hn := orderNode_nodup M hM (s.asAttr W) o h1
-      have hm : ∀ x ∈ orderNode (some M) (s.asAttr W) o, modOf x = M := by
-        intro x hx
-        rcases (orderNode_mem M hM (s.asAttr W) o x).mp hx with h | h
-        · exact h2 x h
-        · exact h.2
-      have hsub : ∀ x ∈ o, x ∈ orderNode (some M) (s.asAttr W) o := fun x hx => (orderNode_mem M hM _ o x).mpr (Or.inl hx)
-      split
-      · rename_i hin
-        obtain ⟨a, b, c, d⟩ := ih _ hn hm
-        refine ⟨a, b, fun x hx => c x (hsub x hx), ?_⟩
-        intro ks hks hmod
-        rcases List.mem_cons.mp hks with h | h
-        · rw [h]; exact c k hin
-        · exact d ks h hmod
-      · rename_i hin
-        have hn' : (orderNode (some M) (s.asAttr W) o ++ [k]).Nodup := by
-          rw [List.nodup_append]
-          refine ⟨hn, by simp, ?_⟩
-          intro x hx y hy
-          simp only [List.mem_singleton] at hy
-          subst hy
-          intro he; subst he; exact hin hx
-        have hm' : ∀ x ∈ orderNode (some M) (s.asAttr W) o ++ [k], modOf x = M := by
-          intro x hx
-          rcases List.mem_append.mp hx with h | h
-          · exact hm x h
-          · simp only [List.mem_singleton] at h; rw [h]; exact hk.symm
-        obtain ⟨a, b, c, d⟩ := ih _ hn' hm'
-        refine ⟨a, b, fun x hx => c x (List.mem_append.mpr (Or.inl (hsub x hx))), ?_⟩
-        intro ks hks hmod
-        rcases List.mem_cons.mp hks with h | h
-        · rw [h]; exact c k (by simp)
-        · exact d ks h hmod
-    · rename_i hk
-      obtain ⟨a, b, c, d⟩ := ih o h1 h2
-      refine ⟨a, b, c, ?_⟩
-      intro ks hks hmod
-      rcases List.mem_cons.mp hks with h | h
-      · rw [h] at hmod; exact absurd hmod.symm hk
-      · exact d ks h hmod
-
-/-- the hoisting invariant along the table: `E` = keys of the module declared so far -/
-def HoistItems (W : World) (refs : Str → List Str) (base : List Str) (M : Str) : List Str → List (Str × Sym) → Prop
-  | _, [] => True
-  | E, (k, s) :: rest =>
-    (modOf k = M → HoistN refs base E M (s.asAttr W) ∧
-      ∀ r ∈ refs k, r ∈ base ∨ r ∈ E ∨ (modOf r = M ∧ r ∈ keysN (s.asAttr W))) ∧
-    HoistItems W refs base M (if modOf k = M then E ++ [k] else E) rest
-
-theorem orderKeysLoop_valid (W : World) (refs : Str → List Str) (base : List Str) (M : Str) (hM : M ≠ [])
-    (items : List (Str × Sym)) :
-    ∀ (E o : List Str), HoistItems W refs base M E items → ValidFrom refs base o → (∀ e ∈ E, e ∈ o) →
-      ValidFrom refs base (orderKeysLoop W (some M) items o) := by
-  induction items with
-  | nil => intro E o _ hv _; exact hv
-  | cons ks rest ih =>
-    obtain ⟨k, s⟩ := ks
-    intro E o hh hv hE
-    simp only [HoistItems] at hh
-    rw [orderKeysLoop_cons]
-    split
-    · rename_i hk
-      obtain ⟨hN, hK⟩ := hh.1 hk.symm
-      have hrest := hh.2
-      simp only [hk.symm, if_true] at hrest
-      have hv1 := orderNode_valid refs base E M hM (s.asAttr W) o hv hE hN
-      have hsub : ∀ x ∈ o, x ∈ orderNode (some M) (s.asAttr W) o := fun x hx => (orderNode_mem M hM _ o x).mpr (Or.inl hx)
-      split
-      · rename_i hin
-        apply ih (E ++ [k]) _ hrest hv1
-        intro e he
-        rcases List.mem_append.mp he with h | h
-        · exact hsub e (hE e h)
-        · simp only [List.mem_singleton] at h; rw [h]; exact hin
-      · apply ih (E ++ [k]) _ hrest
-        · rw [validFrom_snoc]
-          refine ⟨hv1, ?_⟩
-          intro r hr
-          rcases hK r hr with h | h | h
-          · exact List.mem_append.mpr (Or.inl h)
-          · exact List.mem_append.mpr (Or.inr (hsub r (hE r h)))
-          · exact List.mem_append.mpr (Or.inr ((orderNode_mem M hM _ o r).mpr (Or.inr ⟨h.2, h.1⟩)))
-        · intro e he
-          rcases List.mem_append.mp he with h | h
-          · exact List.mem_append.mpr (Or.inl (hsub e (hE e h)))
-          · exact List.mem_append.mpr (Or.inr h)
-    · rename_i hk
-      have hrest := hh.2
-      have : ¬ modOf k = M := fun h => hk h.symm
-      simp only [this, if_false] at hrest
-      exact ih E o hrest hv hE
 
 theorem mem_dictInsert {α β : Type} [DecidableEq α] (d : List (α × β)) (k : α) (v : β) :
     ∀ kv ∈ dictInsert d k v, kv ∈ d ∨ kv = (k, v) := by
@@ -1989,6 +1736,406 @@ theorem mem_of_dictGet {β : Type} (l : List (Str × β)) (k : Str) (v : β) (h 
     · simp only [hk, if_false] at h
       exact List.mem_cons_of_mem _ (ih h)
 
+/-! ## the export order (`_order_keys_recursive` after fix 95feeba) -/
+
+theorem orderNode_unfold (look : Str → Option Forest) (sub : Forest → List Str → List Str → List Str)
+    (M : Str) (hM : M ≠ []) (k : Str) (cs : List Attr) (o res : List Str) :
+    orderNode look sub (some M) (.mk k cs) o res =
+      if M = modOf k ∧ k ∉ orderList look sub (some M) cs o res then
+        (if k ∉ entryFirst look sub k (orderList look sub (some M) cs o res) res
+          then entryFirst look sub k (orderList look sub (some M) cs o res) res ++ [k]
+          else entryFirst look sub k (orderList look sub (some M) cs o res) res)
+      else orderList look sub (some M) cs o res := by
+  have hf : falsy (some M) = false := by
+    cases M with
+    | nil => exact absurd rfl hM
+    | cons _ _ => rfl
+  simp only [orderNode, hf, Bool.false_or]
+  by_cases h1 : M = modOf k
+  · subst h1
+    by_cases h2 : k ∈ orderList look sub (some (modOf k)) cs o res
+    · simp [h2]
+    · by_cases h3 : k ∈ entryFirst look sub k (orderList look sub (some (modOf k)) cs o res) res
+      · simp [h2, h3]
+      · simp [h2, h3]
+  · have : (some M == some (modOf k)) = false := by simp [h1]
+    simp [this, h1]
+
+theorem entryFirst_gen (look : Str → Option Forest) (sub : Forest → List Str → List Str → List Str) (M : Str)
+    (hs : ∀ f o res, (∀ x ∈ o, x ∈ sub f o res) ∧ (o.Nodup → (sub f o res).Nodup) ∧ ((∀ x ∈ o, modOf x = M) → ∀ x ∈ sub f o res, modOf x = M))
+    (k : Str) (o res : List Str) :
+    (∀ x ∈ o, x ∈ entryFirst look sub k o res) ∧ (o.Nodup → (entryFirst look sub k o res).Nodup) ∧
+      ((∀ x ∈ o, modOf x = M) → ∀ x ∈ entryFirst look sub k o res, modOf x = M) := by
+  unfold entryFirst
+  split
+  · split
+    · exact ⟨fun _ h => h, fun h => h, fun h => h⟩
+    · exact hs _ _ _
+  · exact ⟨fun _ h => h, fun h => h, fun h => h⟩
+
+/-- the walk only appends: `orders` grows, stays duplicate-free and inside the module -/
+def GenOK (M : Str) (o o' : List Str) : Prop :=
+  (∀ x ∈ o, x ∈ o') ∧ (o.Nodup → o'.Nodup) ∧ ((∀ x ∈ o, modOf x = M) → ∀ x ∈ o', modOf x = M)
+
+theorem GenOK.refl (M : Str) (o : List Str) : GenOK M o o := ⟨fun _ h => h, fun h => h, fun h => h⟩
+
+theorem GenOK.trans {M : Str} {a b c : List Str} (h1 : GenOK M a b) (h2 : GenOK M b c) : GenOK M a c :=
+  ⟨fun x hx => h2.1 x (h1.1 x hx), fun h => h2.2.1 (h1.2.1 h), fun h => h2.2.2 (h1.2.2 h)⟩
+
+theorem GenOK.snoc (M : Str) (o : List Str) (k : Str) (hk : k ∉ o) (hm : modOf k = M) : GenOK M o (o ++ [k]) := by
+  refine ⟨fun x hx => List.mem_append.mpr (Or.inl hx), ?_, ?_⟩
+  · intro hn
+    rw [List.nodup_append]
+    refine ⟨hn, by simp, ?_⟩
+    intro x hx y hy
+    simp only [List.mem_singleton] at hy
+    subst hy
+    intro he; subst he; exact hk hx
+  · intro h x hx
+    rcases List.mem_append.mp hx with h' | h'
+    · exact h x h'
+    · simp only [List.mem_singleton] at h'; rw [h']; exact hm
+
+def SubGen (M : Str) (sub : Forest → List Str → List Str → List Str) : Prop :=
+  ∀ f o res, GenOK M o (sub f o res)
+
+mutual
+theorem orderNode_gen (look : Str → Option Forest) (sub : Forest → List Str → List Str → List Str) (M : Str) (hM : M ≠ [])
+    (hs : SubGen M sub) (a : Attr) (o res : List Str) :
+    GenOK M o (orderNode look sub (some M) a o res) ∧
+      ∀ c ∈ keysN a, modOf c = M → c ∈ orderNode look sub (some M) a o res := by
+  match a with
+  | .mk k cs =>
+    obtain ⟨g1, c1⟩ := orderList_gen look sub M hM hs cs o res
+    rw [orderNode_unfold look sub M hM]
+    split
+    · rename_i hc
+      have g2 : GenOK M (orderList look sub (some M) cs o res) (entryFirst look sub k (orderList look sub (some M) cs o res) res) :=
+        entryFirst_gen look sub M hs k _ res
+      split
+      · rename_i hk
+        have g3 := GenOK.snoc M _ k hk hc.1.symm
+        refine ⟨g1.trans (g2.trans g3), ?_⟩
+        intro c hcm hmod
+        simp only [keysN, List.mem_cons] at hcm
+        rcases hcm with h | h
+        · rw [h]; exact List.mem_append.mpr (Or.inr (by simp))
+        · exact g3.1 c (g2.1 c (c1 c h hmod))
+      · rename_i hk
+        refine ⟨g1.trans g2, ?_⟩
+        intro c hcm hmod
+        simp only [keysN, List.mem_cons] at hcm
+        rcases hcm with h | h
+        · rw [h]; exact Classical.not_not.mp hk
+        · exact g2.1 c (c1 c h hmod)
+    · rename_i hc
+      refine ⟨g1, ?_⟩
+      intro c hcm hmod
+      simp only [keysN, List.mem_cons] at hcm
+      rcases hcm with h | h
+      · subst h
+        exact Classical.not_not.mp (fun hn => hc ⟨hmod.symm, hn⟩)
+      · exact c1 c h hmod
+theorem orderList_gen (look : Str → Option Forest) (sub : Forest → List Str → List Str → List Str) (M : Str) (hM : M ≠ [])
+    (hs : SubGen M sub) (cs : List Attr) (o res : List Str) :
+    GenOK M o (orderList look sub (some M) cs o res) ∧
+      ∀ c ∈ keysL cs, modOf c = M → c ∈ orderList look sub (some M) cs o res := by
+  match cs with
+  | [] => exact ⟨GenOK.refl _ _, by simp [keysL]⟩
+  | a :: rest =>
+    obtain ⟨g1, c1⟩ := orderNode_gen look sub M hM hs a o res
+    obtain ⟨g2, c2⟩ := orderList_gen look sub M hM hs rest (orderNode look sub (some M) a o res) res
+    simp only [orderList]
+    refine ⟨g1.trans g2, ?_⟩
+    intro c hc hmod
+    simp only [keysL, List.mem_append] at hc
+    rcases hc with h | h
+    · exact g2.1 c (c1 c h hmod)
+    · exact c2 c h hmod
+end
+
+theorem orderFuel_gen (look : Str → Option Forest) (M : Str) (hM : M ≠ []) (n : Nat) : SubGen M (orderFuel look (some M) n) := by
+  induction n with
+  | zero => intro f o res; exact GenOK.refl _ _
+  | succ n ih => intro f o res; exact (orderList_gen look (orderFuel look (some M) n) M hM ih f o res).1
+
+/-- keys of the other modules -/
+def baseKeys (t : Table) (M : Str) : List Str := (t.items.filter (fun ks => modOf ks.1 != M)).map Prod.fst
+
+theorem mem_baseKeys (t : Table) (M r : Str) (h : r ∈ t.items.map Prod.fst) (hm : modOf r ≠ M) : r ∈ baseKeys t M := by
+  obtain ⟨ks, hks, hk⟩ := List.mem_map.mp h
+  exact List.mem_map.mpr ⟨ks, List.mem_filter.mpr ⟨hks, by simp [hk, hm]⟩, hk⟩
+
+theorem dictGet_of_mem_nodup {β : Type} (l : List (Str × β)) (k : Str) (v : β)
+    (hn : (l.map Prod.fst).Nodup) (h : (k, v) ∈ l) : dictGet? l k = some v := by
+  induction l with
+  | nil => simp at h
+  | cons x rest ih =>
+    obtain ⟨kx, vx⟩ := x
+    simp only [List.map_cons, List.nodup_cons] at hn
+    simp only [dictGet?]
+    rcases List.mem_cons.mp h with h' | h'
+    · cases h'; simp
+    · have : kx ≠ k := fun he => hn.1 (by rw [he]; exact List.mem_map_of_mem h')
+      simp only [this, if_false]
+      exact ih hn.2 h'
+
+/-- the key of a table entry that is a class symbol (`serialize`'s `Symbol` shape) -/
+def ClsEntry (W : World) (t : Table) (c : Str) : Prop :=
+  ∃ sc, dictGet? t.items c = some sc ∧ sc.isClassSymbol W = true
+
+instance (W : World) (t : Table) (c : Str) : Decidable (ClsEntry W t c) :=
+  match h : dictGet? t.items c with
+  | some sc =>
+    if hc : sc.isClassSymbol W = true then isTrue ⟨sc, h, hc⟩
+    else isFalse (by rintro ⟨sc', h', hc'⟩; rw [h] at h'; cases h'; exact hc hc')
+  | none => isFalse (by rintro ⟨sc', h', _⟩; rw [h] at h'; cases h')
+
+/-- What a loaded table guarantees about module `M` (the hypotheses of the order law), for a rank function on keys:
+    every reference is a key; in-module type keys are keys of class symbols; a class symbol refers only to in-module classes of
+    smaller rank (no class refers to itself through its attributes — otherwise no import order exists at all); the `via`
+    of a non-class entry is a key of another module or one of its own type keys. -/
+structure Loaded (W : World) (t : Table) (M : Str) (rank : Str → Nat) : Prop where
+  nodup : (t.items.map Prod.fst).Nodup
+  closed : ∀ ks ∈ t.items, ∀ r ∈ rowRefs (serialize W ks.2), r ∈ t.items.map Prod.fst
+  clsKeys : ∀ ks ∈ t.items, modOf ks.1 = M → ∀ c ∈ keysN (ks.2.asAttr W), modOf c = M → ClsEntry W t c
+  rankBound : ∀ ks ∈ t.items, rank ks.1 ≤ t.items.length
+  acyclic : ∀ ks ∈ t.items, modOf ks.1 = M → ks.2.isClassSymbol W = true →
+    ∀ c' ∈ keysL ks.2.attrs, modOf c' = M → rank c' < rank ks.1
+  viaOK : ∀ ks ∈ t.items, modOf ks.1 = M → ks.2.isClassSymbol W = false →
+    ks.2.via ∈ baseKeys t M ∨ ks.2.via ∈ keysN (ks.2.asAttr W)
+
+theorem expand_keys (f : Forest) : (expand f).map Prod.snd = keysL f := by
+  rw [expand_eq_flatten]; unfold flatten; exact flatList_keys 0 f
+
+theorem refsOf_cls (W : World) (t : Table) (c : Str) (sc : Sym) (h : dictGet? t.items c = some sc)
+    (hc : sc.isClassSymbol W = true) : refsOf W t c = keysL sc.attrs := by
+  simp [refsOf, h, serialize, hc, rowRefs, expand_keys]
+
+theorem refsOf_ref (W : World) (t : Table) (c : Str) (sc : Sym) (h : dictGet? t.items c = some sc)
+    (hc : sc.isClassSymbol W = false) : refsOf W t c = sc.typesKey W :: sc.via :: keysL sc.attrs := by
+  simp [refsOf, h, serialize, hc, rowRefs, expand_keys]
+
+/-- every reference of a table entry is a key of another module, or one of the entry's own type keys inside the module -/
+theorem refs_split (W : World) (t : Table) (M : Str) (rank : Str → Nat) (hl : Loaded W t M rank)
+    (K : Str) (s : Sym) (hks : (K, s) ∈ t.items) (hK : modOf K = M) :
+    ∀ r ∈ refsOf W t K, r ∈ baseKeys t M ∨ (modOf r = M ∧ r ∈ keysN (s.asAttr W)) := by
+  have hget := dictGet_of_mem_nodup t.items K s hl.nodup hks
+  have hclosed : ∀ r ∈ refsOf W t K, r ∈ t.items.map Prod.fst := by
+    intro r hr
+    have := hl.closed (K, s) hks r
+    simp only [refsOf, hget] at hr
+    exact this hr
+  intro r hr
+  by_cases hm : modOf r = M
+  · right
+    refine ⟨hm, ?_⟩
+    cases hc : s.isClassSymbol W with
+    | true =>
+      rw [refsOf_cls W t K s hget hc] at hr
+      simp only [Sym.asAttr, keysN, List.mem_cons]
+      exact Or.inr hr
+    | false =>
+      rw [refsOf_ref W t K s hget hc] at hr
+      simp only [Sym.asAttr, keysN, List.mem_cons] at hr ⊢
+      rcases hr with h | h | h
+      · exact Or.inl h
+      · rcases hl.viaOK (K, s) hks hK hc with hv | hv
+        · exfalso
+          rw [← h] at hv
+          obtain ⟨ks, hks', hk'⟩ := List.mem_map.mp hv
+          have := (List.mem_filter.mp hks').2
+          rw [hk', hm] at this
+          simp at this
+        · rw [h]
+          simpa [Sym.asAttr, keysN] using hv
+      · exact Or.inr h
+  · exact Or.inl (mem_baseKeys t M r (hclosed r hr) hm)
+
+/-- the entries of `res` (classes being expanded) have larger rank than every in-module key still to be walked -/
+def ResAbove (M : Str) (rank : Str → Nat) (res ks : List Str) : Prop :=
+  ∀ r ∈ res, ∀ c ∈ ks, modOf c = M → rank c < rank r
+
+/-- what the nested walk does on the attributes of a class entry of rank ≤ n -/
+def SubOK (W : World) (t : Table) (M : Str) (rank : Str → Nat) (sub : Forest → List Str → List Str → List Str) (n : Nat) : Prop :=
+  ∀ c sc o res, dictGet? t.items c = some sc → sc.isClassSymbol W = true → modOf c = M → rank c ≤ n →
+    ValidFrom (refsOf W t) (baseKeys t M) o → ResAbove M rank res (keysL sc.attrs) →
+    ValidFrom (refsOf W t) (baseKeys t M) (sub sc.attrs o res) ∧
+      ∀ c' ∈ keysL sc.attrs, modOf c' = M → c' ∈ sub sc.attrs o res
+
+mutual
+theorem orderNode_valid (W : World) (t : Table) (M : Str) (hM : M ≠ []) (rank : Str → Nat) (hl : Loaded W t M rank)
+    (sub : Forest → List Str → List Str → List Str) (n : Nat) (hg : SubGen M sub) (hs : SubOK W t M rank sub n)
+    (a : Attr) (o res : List Str)
+    (hk : ∀ c ∈ keysN a, modOf c = M → rank c ≤ n ∧ ClsEntry W t c)
+    (hr : ResAbove M rank res (keysN a)) (hv : ValidFrom (refsOf W t) (baseKeys t M) o) :
+    ValidFrom (refsOf W t) (baseKeys t M) (orderNode t.entryAttrs sub (some M) a o res) := by
+  match a with
+  | .mk k cs =>
+    have ih := orderList_valid W t M hM rank hl sub n hg hs cs o res
+      (fun c hc hm => hk c (by simp [keysN, hc]) hm)
+      (fun r hr' c hc hm => hr r hr' c (by simp [keysN, hc]) hm) hv
+    rw [orderNode_unfold t.entryAttrs sub M hM]
+    split
+    · rename_i hc
+      obtain ⟨hrank, sc, hsc, hcls⟩ := hk k (by simp [keysN]) hc.1.symm
+      have hlook : t.entryAttrs k = some sc.attrs := by simp [Table.entryAttrs, hsc]
+      have hres : k ∉ res := by
+        intro hin
+        have := hr k hin k (by simp [keysN]) hc.1.symm
+        omega
+      have hef : entryFirst t.entryAttrs sub k (orderList t.entryAttrs sub (some M) cs o res) res
+          = sub sc.attrs (orderList t.entryAttrs sub (some M) cs o res) (res ++ [k]) := by
+        simp [entryFirst, hlook, hres]
+      rw [hef]
+      have hra : ResAbove M rank (res ++ [k]) (keysL sc.attrs) := by
+        intro r hr' c' hc' hm'
+        have hlt : rank c' < rank k := hl.acyclic (k, sc) (mem_of_dictGet _ _ _ hsc) hc.1.symm hcls c' hc' hm'
+        rcases List.mem_append.mp hr' with h | h
+        · have := hr r h k (by simp [keysN]) hc.1.symm
+          omega
+        · simp only [List.mem_singleton] at h; rw [h]; exact hlt
+      obtain ⟨hv2, hcov⟩ := hs k sc _ (res ++ [k]) hsc hcls hc.1.symm hrank ih hra
+      split
+      · rw [validFrom_snoc]
+        refine ⟨hv2, ?_⟩
+        intro r hr'
+        rw [refsOf_cls W t k sc hsc hcls] at hr'
+        by_cases hm : modOf r = M
+        · exact List.mem_append.mpr (Or.inr (hcov r hr' hm))
+        · refine List.mem_append.mpr (Or.inl (mem_baseKeys t M r ?_ hm))
+          have := hl.closed (k, sc) (mem_of_dictGet _ _ _ hsc) r
+          simp only [serialize, hcls, if_true, rowRefs, expand_keys] at this
+          exact this hr'
+      · exact hv2
+    · exact ih
+theorem orderList_valid (W : World) (t : Table) (M : Str) (hM : M ≠ []) (rank : Str → Nat) (hl : Loaded W t M rank)
+    (sub : Forest → List Str → List Str → List Str) (n : Nat) (hg : SubGen M sub) (hs : SubOK W t M rank sub n)
+    (cs : List Attr) (o res : List Str)
+    (hk : ∀ c ∈ keysL cs, modOf c = M → rank c ≤ n ∧ ClsEntry W t c)
+    (hr : ResAbove M rank res (keysL cs)) (hv : ValidFrom (refsOf W t) (baseKeys t M) o) :
+    ValidFrom (refsOf W t) (baseKeys t M) (orderList t.entryAttrs sub (some M) cs o res) := by
+  match cs with
+  | [] => exact hv
+  | a :: rest =>
+    simp only [orderList]
+    exact orderList_valid W t M hM rank hl sub n hg hs rest _ res
+      (fun c hc hm => hk c (by simp [keysL, hc]) hm)
+      (fun r hr' c hc hm => hr r hr' c (by simp [keysL, hc]) hm)
+      (orderNode_valid W t M hM rank hl sub n hg hs a o res
+        (fun c hc hm => hk c (by simp [keysL, hc]) hm)
+        (fun r hr' c hc hm => hr r hr' c (by simp [keysL, hc]) hm) hv)
+end
+
+theorem orderFuel_subOK (W : World) (t : Table) (M : Str) (hM : M ≠ []) (rank : Str → Nat) (hl : Loaded W t M rank) (n : Nat) :
+    SubOK W t M rank (orderFuel t.entryAttrs (some M) n) n := by
+  induction n with
+  | zero =>
+    intro c sc o res hsc hcls hm hrank hv _
+    refine ⟨hv, ?_⟩
+    intro c' hc' hm'
+    have : rank c' < rank c := hl.acyclic (c, sc) (mem_of_dictGet _ _ _ hsc) hm hcls c' hc' hm'
+    omega
+  | succ n ih =>
+    intro c sc o res hsc hcls hm hrank hv hra
+    have hkeys : ∀ c' ∈ keysL sc.attrs, modOf c' = M → rank c' ≤ n ∧ ClsEntry W t c' := by
+      intro c' hc' hm'
+      have : rank c' < rank c := hl.acyclic (c, sc) (mem_of_dictGet _ _ _ hsc) hm hcls c' hc' hm'
+      refine ⟨by omega, ?_⟩
+      exact hl.clsKeys (c, sc) (mem_of_dictGet _ _ _ hsc) hm c' (by simp [Sym.asAttr, keysN, hc']) hm'
+    refine ⟨?_, ?_⟩
+    · exact orderList_valid W t M hM rank hl _ n (orderFuel_gen _ M hM n) ih sc.attrs o res hkeys hra hv
+    · exact (orderList_gen t.entryAttrs _ M hM (orderFuel_gen _ M hM n) sc.attrs o res).2
+
+/-! ## `_order_keys` and `to_json` -/
+
+theorem orderKeysLoop_cons (W : World) (t : Table) (M : Str) (k : Str) (s : Sym) (rest : List (Str × Sym)) (o : List Str) :
+    orderKeysLoop W t (some M) ((k, s) :: rest) o =
+      if M = modOf k then
+        orderKeysLoop W t (some M) rest
+          (if k ∈ orderFuel t.entryAttrs (some M) (t.items.length + 1) [s.asAttr W] o []
+            then orderFuel t.entryAttrs (some M) (t.items.length + 1) [s.asAttr W] o []
+            else orderFuel t.entryAttrs (some M) (t.items.length + 1) [s.asAttr W] o [] ++ [k])
+      else orderKeysLoop W t (some M) rest o := by
+  simp only [orderKeysLoop]
+  by_cases h : M = modOf k
+  · subst h
+    simp
+  · have : (some M == some (modOf k)) = false := by simp [h]
+    simp [this, h]
+
+theorem orderKeysLoop_spec (W : World) (t : Table) (M : Str) (hM : M ≠ []) (items : List (Str × Sym)) :
+    ∀ o : List Str, o.Nodup → (∀ x ∈ o, modOf x = M) →
+      (orderKeysLoop W t (some M) items o).Nodup ∧ (∀ x ∈ orderKeysLoop W t (some M) items o, modOf x = M) ∧
+      (∀ x ∈ o, x ∈ orderKeysLoop W t (some M) items o) ∧
+      (∀ ks ∈ items, modOf ks.1 = M → ks.1 ∈ orderKeysLoop W t (some M) items o) := by
+  induction items with
+  | nil => intro o h1 h2; exact ⟨h1, h2, fun x hx => hx, by simp⟩
+  | cons ks rest ih =>
+    obtain ⟨k, s⟩ := ks
+    intro o h1 h2
+    rw [orderKeysLoop_cons]
+    split
+    · rename_i hk
+      obtain ⟨gmono, gnodup, gmod⟩ := orderFuel_gen t.entryAttrs M hM (t.items.length + 1) [s.asAttr W] o []
+      split
+      · rename_i hin
+        obtain ⟨a, b, c, d⟩ := ih _ (gnodup h1) (gmod h2)
+        refine ⟨a, b, fun x hx => c x (gmono x hx), ?_⟩
+        intro ks hks hmod
+        rcases List.mem_cons.mp hks with h | h
+        · rw [h]; exact c k hin
+        · exact d ks h hmod
+      · rename_i hin
+        obtain ⟨smono, snodup, smod⟩ := GenOK.snoc M _ k hin hk.symm
+        obtain ⟨a, b, c, d⟩ := ih _ (snodup (gnodup h1)) (smod (gmod h2))
+        refine ⟨a, b, fun x hx => c x (smono x (gmono x hx)), ?_⟩
+        intro ks hks hmod
+        rcases List.mem_cons.mp hks with h | h
+        · rw [h]; exact c k (by simp)
+        · exact d ks h hmod
+    · rename_i hk
+      obtain ⟨a, b, c, d⟩ := ih o h1 h2
+      refine ⟨a, b, c, ?_⟩
+      intro ks hks hmod
+      rcases List.mem_cons.mp hks with h | h
+      · rw [h] at hmod; exact absurd hmod.symm hk
+      · exact d ks h hmod
+
+theorem orderKeysLoop_valid (W : World) (t : Table) (M : Str) (hM : M ≠ []) (rank : Str → Nat) (hl : Loaded W t M rank)
+    (items : List (Str × Sym)) (hsub : ∀ ks ∈ items, ks ∈ t.items) :
+    ∀ o, ValidFrom (refsOf W t) (baseKeys t M) o → ValidFrom (refsOf W t) (baseKeys t M) (orderKeysLoop W t (some M) items o) := by
+  induction items with
+  | nil => intro o hv; exact hv
+  | cons ks rest ih =>
+    obtain ⟨k, s⟩ := ks
+    intro o hv
+    have hks : (k, s) ∈ t.items := hsub (k, s) (by simp)
+    have ih' := ih (fun ks hks => hsub ks (by simp [hks]))
+    rw [orderKeysLoop_cons]
+    split
+    · rename_i hk
+      have hkeys : ∀ c ∈ keysL [s.asAttr W], modOf c = M → rank c ≤ t.items.length ∧ ClsEntry W t c := by
+        intro c hc hm
+        simp only [keysL, List.append_nil] at hc
+        have hce := hl.clsKeys (k, s) hks hk.symm c hc hm
+        obtain ⟨sc, hsc, hcls⟩ := hce
+        exact ⟨hl.rankBound (c, sc) (mem_of_dictGet _ _ _ hsc), ⟨sc, hsc, hcls⟩⟩
+      have hv1 : ValidFrom (refsOf W t) (baseKeys t M) (orderFuel t.entryAttrs (some M) (t.items.length + 1) [s.asAttr W] o []) :=
+        orderList_valid W t M hM rank hl _ t.items.length (orderFuel_gen _ M hM _) (orderFuel_subOK W t M hM rank hl _)
+          [s.asAttr W] o [] hkeys (fun r hr => by simp at hr) hv
+      have hcov := (orderList_gen t.entryAttrs _ M hM (orderFuel_gen t.entryAttrs M hM t.items.length) [s.asAttr W] o []).2
+      split
+      · exact ih' _ hv1
+      · apply ih'
+        rw [validFrom_snoc]
+        refine ⟨hv1, ?_⟩
+        intro r hr
+        rcases refs_split W t M rank hl k s hks hk.symm r hr with h | h
+        · exact List.mem_append.mpr (Or.inl h)
+        · exact List.mem_append.mpr (Or.inr (hcov r (by simp [keysL, h.2]) h.1))
+    · exact ih' o hv
+
 /-! ## decision procedures for the recursive invariants (used by the concrete examples) -/
 
 def decRefsAvail : (d : List (Str × Row)) → (avail : List Str) → Decidable (RefsAvail avail d)
@@ -1998,32 +2145,5 @@ def decRefsAvail : (d : List (Str × Row)) → (avail : List Str) → Decidable 
     inferInstanceAs (Decidable ((∀ r ∈ rowRefs row, r ∈ avail) ∧ RefsAvail (avail ++ [k]) rest))
 
 instance (avail : List Str) (d : List (Str × Row)) : Decidable (RefsAvail avail d) := decRefsAvail d avail
-
-mutual
-def decHoistN (refs : Str → List Str) (base E : List Str) (M : Str) : (a : Attr) → Decidable (HoistN refs base E M a)
-  | .mk c ch =>
-    have := decHoistL refs base E M ch
-    inferInstanceAs (Decidable ((modOf c = M → c ∉ E → ∀ r ∈ refs c, r ∈ base ∨ r ∈ E ∨ (modOf r = M ∧ r ∈ keysL ch)) ∧ HoistL refs base E M ch))
-def decHoistL (refs : Str → List Str) (base E : List Str) (M : Str) : (cs : List Attr) → Decidable (HoistL refs base E M cs)
-  | [] => isTrue trivial
-  | a :: rest =>
-    have := decHoistN refs base E M a
-    have := decHoistL refs base E M rest
-    inferInstanceAs (Decidable (HoistN refs base E M a ∧ HoistL refs base E M rest))
-end
-
-instance (refs : Str → List Str) (base E : List Str) (M : Str) (a : Attr) : Decidable (HoistN refs base E M a) := decHoistN refs base E M a
-
-def decHoistItems (W : World) (refs : Str → List Str) (base : List Str) (M : Str) :
-    (items : List (Str × Sym)) → (E : List Str) → Decidable (HoistItems W refs base M E items)
-  | [], _ => isTrue trivial
-  | (k, s) :: rest, E =>
-    have := decHoistItems W refs base M rest (if modOf k = M then E ++ [k] else E)
-    inferInstanceAs (Decidable ((modOf k = M → HoistN refs base E M (s.asAttr W) ∧
-      ∀ r ∈ refs k, r ∈ base ∨ r ∈ E ∨ (modOf r = M ∧ r ∈ keysN (s.asAttr W))) ∧
-      HoistItems W refs base M (if modOf k = M then E ++ [k] else E) rest))
-
-instance (W : World) (refs : Str → List Str) (base E : List Str) (M : Str) (items : List (Str × Sym)) :
-    Decidable (HoistItems W refs base M E items) := decHoistItems W refs base M items E
 
 end Tranp.SymbolJson
